@@ -76,6 +76,33 @@ func buildWAL(r *common.Rand, ps int, be bool, frames [][2]uint32) []byte {
 	return out
 }
 
+// oddPageSizeWAL: a log whose header is intact (magic, version, checksum) but names a page size SQLite does not accept,
+// followed by one frame with the right salts.
+func oddPageSizeWAL(r *common.Rand, ps uint32, be bool) []byte {
+	b := buildWAL(r, 512, be, nil)
+	var bo binary.ByteOrder = binary.LittleEndian
+	if be {
+		bo = binary.BigEndian
+	}
+	binary.BigEndian.PutUint32(b[8:], ps)
+	c1, c2 := walChecksum(bo, 0, 0, b[:24])
+	binary.BigEndian.PutUint32(b[24:], c1)
+	binary.BigEndian.PutUint32(b[28:], c2)
+	n := int(ps)
+	if n > 70000 {
+		n = 70000
+	}
+	fr := make([]byte, 24+n)
+	binary.BigEndian.PutUint32(fr[0:], 1)
+	binary.BigEndian.PutUint32(fr[4:], 1)
+	copy(fr[8:16], b[16:24])
+	copy(fr[16:24], r.Bytes(8))
+	copy(fr[24:], r.Bytes(n))
+	return append(b, fr...)
+}
+
+var oddPageSizes = []uint32{100, 7, 24, 0, 1, 8, 256, 1000, 1023, 520, 131072, 65537, 1 << 20}
+
 type walObs struct {
 	hdr    uint64 // 0 ok, 1 EOF (invalid/short/checksum), 3 other error (bad magic / version)
 	frames [][2]uint32
@@ -160,6 +187,9 @@ func walCases(c *common.Ctx, cf *common.CaseFile) {
 		b := buildWAL(r, ps, be, frames)
 		kind := "valid"
 		switch x := r.Intn(100); {
+		case i >= 16 && i < 16+len(oddPageSizes):
+			kind = fmt.Sprintf("odd-page-size-%d", oddPageSizes[i-16])
+			b = oddPageSizeWAL(r, oddPageSizes[i-16], i&1 == 1)
 		case i < 16:
 			word, k := i>>1&1, i>>2&3
 			kind = fmt.Sprintf("salt%d-of-frame-%d", word+1, k)
@@ -335,8 +365,8 @@ type seg struct {
 
 func buildJournal(r *common.Rand, ps, sector int, dbSize uint32, segs []seg, pre func(pg uint32) []byte) []byte {
 	var out []byte
-	nonce := uint32(r.U64())
 	for _, s := range segs {
+		nonce := uint32(r.U64()) // SQLite draws a fresh checksum nonce for every journal header
 		// sector-align
 		for len(out)%sector != 0 {
 			out = append(out, 0)
@@ -664,6 +694,9 @@ func Run(c *common.Ctx) error {
 	if err := walAtOpen(c); err != nil {
 		return err
 	}
+	if err := emptyDatabaseJournal(c); err != nil {
+		return err
+	}
 	c.Sample(map[string]any{"wal_case": "header + k frames, then one of: truncation, bit flip, stale-generation salts, zeroed region, bad magic/version, zero file, random bytes"})
 	return nil
 }
@@ -704,7 +737,11 @@ func walAtOpen(c *common.Ctx) error {
 		var wal []byte
 		kind := ""
 		want := pre // what Open must leave: the committed database
-		switch r.Intn(8) {
+		sel := r.Intn(8)
+		if i < len(oddPageSizes) {
+			sel = 100 + i
+		}
+		switch sel {
 		case 6, 7:
 			// k committed transactions followed by valid frames of one that never committed (no transaction
 			// log: the checkpoint at Open takes the committed ones and only those)
@@ -771,6 +808,11 @@ func walAtOpen(c *common.Ctx) error {
 			kind = "valid-uncommitted"
 			wal = buildWAL(r, ps, r.Bool(), [][2]uint32{{1, 0}, {2, 0}})
 		default:
+			if sel >= 100 {
+				kind = fmt.Sprintf("odd-page-size-%d", oddPageSizes[sel-100])
+				wal = oddPageSizeWAL(r, oddPageSizes[sel-100], i&1 == 1)
+				break
+			}
 			kind = "short"
 			wal = r.Bytes(r.Intn(32))
 		}
@@ -825,6 +867,77 @@ func walAtOpen(c *common.Ctx) error {
 			node.Close()
 		}
 		h.Close()
+	}
+	return nil
+}
+
+// emptyDatabaseJournal: a database file without pages next to a journal - what the first transaction of a brand-new
+// database leaves when its writer dies before page 1 reaches the file (original size 0), and the same with arbitrary
+// original sizes and records (arbitrary bytes: nothing such a journal says may make Open panic, hang or write).
+func emptyDatabaseJournal(c *common.Ctx) error {
+	type shape struct {
+		name   string
+		dbSize uint32
+		segs   []seg
+	}
+	shapes := []shape{
+		{"original-size-0-no-records", 0, []seg{{nRec: 0, corrupt: -1}}},
+		{"original-size-0-one-record", 0, []seg{{nRec: 1, recs: []uint32{1}, corrupt: -1}}},
+		{"original-size-5-one-record", 5, []seg{{nRec: 1, recs: []uint32{1}, corrupt: -1}}},
+		{"original-size-5-three-records-nosync", 5, []seg{{nRec: -1, recs: []uint32{1, 2, 5}, corrupt: -1}}},
+		{"original-size-3-two-segments", 3, []seg{{nRec: 1, recs: []uint32{2}, corrupt: -1}, {nRec: 1, recs: []uint32{3}, corrupt: -1}}},
+	}
+	for _, sh := range shapes {
+		for _, ps := range []int{512, 4096} {
+			r := c.Rng.Fork()
+			dir, err := os.MkdirTemp(c.OutDir, "c17e-")
+			if err != nil {
+				return err
+			}
+			dbDir := filepath.Join(dir, "dbs", "db")
+			_ = os.MkdirAll(filepath.Join(dbDir, "ltx"), 0o755)
+			_ = os.WriteFile(filepath.Join(dbDir, "database"), nil, 0o644)
+			j := buildJournal(r, ps, 512, sh.dbSize, sh.segs, func(pg uint32) []byte { return lfs.MakePage(ps, pg, uint64(pg)+77, sh.dbSize, false) })
+			_ = os.WriteFile(filepath.Join(dbDir, "journal"), j, 0o644)
+			var node *lfs.Node
+			var oerr error
+			var pan string
+			done := make(chan struct{})
+			go func() {
+				defer close(done)
+				pan = common.Try(func() { node, oerr = lfs.Open(dir, true) })
+			}()
+			hung := false
+			select {
+			case <-done:
+			case <-time.After(10 * time.Second):
+				hung = true
+			}
+			c.Evaluations++
+			c.Distinct(fmt.Sprintf("empty-database-journal:%s:%d", sh.name, ps))
+			rep := map[string]any{"kind": "empty-database-journal", "shape": sh.name, "page_size": ps, "journal": j}
+			key := "C17:empty-database-journal:" + sh.name
+			switch {
+			case hung:
+				c.Violate(key+":hang", "Open did not return within 10 s", rep)
+				return nil
+			case pan != "" || (oerr != nil && strings.Contains(oerr.Error(), "panicked")):
+				c.Violate(key+":panic", fmt.Sprintf("Open panicked on an empty database file next to a journal (%s, %d-byte pages): %s %v", sh.name, ps, pan, oerr), rep)
+			case sh.dbSize == 0 && oerr != nil:
+				c.Violate(key+":open", fmt.Sprintf("Open fails on the journal of a brand-new database's interrupted first transaction: %v", oerr), rep)
+			case oerr == nil:
+				if fi, err := os.Stat(filepath.Join(dbDir, "database")); err == nil && fi.Size() != 0 && sh.dbSize == 0 {
+					c.Violate(key+":size", fmt.Sprintf("rollback to an original size of 0 pages left a database file of %d bytes", fi.Size()), rep)
+				}
+				if b, err := os.ReadFile(filepath.Join(dbDir, "journal")); err == nil && len(b) >= 8 && string(b[:8]) == "\xd9\xd5\x05\xf9\x20\xa1\x63\xd7" {
+					c.Violate(key+":hot-journal", "a hot journal is left after Open", rep)
+				}
+			}
+			if node != nil {
+				node.Close()
+			}
+			_ = os.RemoveAll(dir)
+		}
 	}
 	return nil
 }
